@@ -71,7 +71,7 @@ namespace nmtools::index
         }
 
         for (nm_size_t i=0; i<(nm_size_t)dim; i++) {
-            at(result,i) = static_cast<index_t>(float(at(src_shape,i) * at(indices,i) / at(dst_shape,i)));
+            at(result,i) = static_cast<index_t>(at(src_shape,i) * at(indices,i) / at(dst_shape,i));
         }
 
         return result;
